@@ -12,7 +12,12 @@ from fsic.exceptions import NonConvergenceError, SolutionError
 
 
 def bits(x):
-    return struct.unpack('<Q', struct.pack('<d', float(x)))[0]
+    """IEEE-754 bit pattern of a double; every NaN is canonicalised (sign/payload of a NaN are not observable
+    through fsic and Lean's `Float.toBits` canonicalises too)."""
+    x = float(x)
+    if x != x:
+        return 0x7FF8000000000000
+    return struct.unpack('<Q', struct.pack('<d', x))[0]
 
 
 def unbits(b):
@@ -22,17 +27,17 @@ def unbits(b):
 _CLASSES = {}
 
 
-def scripted_class(nE, check, mixins=()):
+def scripted_class(nE, check, mixins=(), exo=('X',)):
     """BaseModel subclass with endogenous E0..E{nE-1}, CHECK = the given subset, whose passes and hooks play a
     script and which logs every solver-initiated call and the check vector after each pass."""
-    key = (nE, tuple(check), tuple(mixins))
+    key = (nE, tuple(check), tuple(mixins), tuple(exo))
     if key in _CLASSES:
         return _CLASSES[key]
     names = [f'E{i}' for i in range(nE)]
 
     class Scripted(fsic.BaseModel):
         ENDOGENOUS = list(names)
-        EXOGENOUS = ['X']
+        EXOGENOUS = list(exo)
         NAMES = ENDOGENOUS + EXOGENOUS
         CHECK = [names[i] for i in check]
 
@@ -92,7 +97,7 @@ def scripted_class(nE, check, mixins=()):
                 super()._evaluate(t, *a, iteration=iteration, **kw)
                 self._play(t, act)
             finally:
-                self.passes.append((p, iteration, self._cv(t)))
+                self.passes.append((p, iteration, self._cv(t), [float(self.__dict__['_' + n][t]) for n in names]))
 
     if mixins:  # mixins go on top, so that e.g. the tracer snapshots *after* the scripted pass has played
         Scripted = type('ScriptedMixed', (*mixins, Scripted), {})
@@ -100,8 +105,8 @@ def scripted_class(nE, check, mixins=()):
     return Scripted
 
 
-def build_instance(case, mixins=(), span=None):
-    cls = scripted_class(case['nE'], case['check'], mixins)
+def build_instance(case, mixins=(), span=None, exo=('X',)):
+    cls = scripted_class(case['nE'], case['check'], mixins, exo)
     n = case['n']
     m = cls(list(range(n)) if span is None else span)
     for i, row in enumerate(case['vals']):
